@@ -62,6 +62,8 @@ var c10Queries = []string{
 	"sum(sum by (a) (m))", "max(max by (a, b) (m))", "min by (b) (min without (a) (m))", "group(group by (a) (m))",
 	"count by (b) (count by (a, b) (m))", "topk(2, topk(1, m))", "topk(1, topk by (a) (1, m))", "bottomk(2, bottomk by (b) (1, m))",
 	"topk by (a) (1, topk(3, m))", "count(count(m))", "sum(count by (a) (m))", "count(sum by (a) (m))",
+	// functions whose scalar argument is computed from series
+	"clamp_max(m, scalar(count(m)))", "clamp_min(m, scalar(max(m)) - 3)", "sum by (a) (clamp_max(m, scalar(n{a=\"1\"})))", "m * scalar(sum(n))",
 }
 
 // TestC10Small enumerates every assignment of <=5 series to <=3 remote engines for a
